@@ -11,6 +11,9 @@ for d in sorted(glob.glob(os.path.join(VERIF, "seeded", "*"))):
         continue
     r = (e.get("replays") or [{}])[0]
     how = "concrete input" if e.get("caught") and not e.get("no_failing_input_found_only") else ("no-failing-input-found" if e.get("caught") else "MISSED")
+    oc = e.get("other_checks") or {}
+    if not e.get("caught") and any(v.get("caught") for v in oc.values()):
+        how = "MISSED by %s; caught by %s" % (e["property"], ", ".join(k for k, v in oc.items() if v.get("caught")))
     fe = e.get("first_evaluation")
     if fe and not fe.get("caught") and e.get("caught"):
         how += " (first evaluation: MISSED; check strengthened since)"
